@@ -807,12 +807,18 @@ fn parse_content(value: &RawValue) -> Result<String, nom::Err<nom::error::Error<
     Ok(result)
 }
 
-pub(crate) fn parse_rules(text: &str) -> IResult<&str, Vec<Declaration>> {
-    separated_list0(
-        tuple((tag(";"), skip_optional_whitespace)),
-        parse_declaration,
+/// One or more `;` (empty declarations are allowed, as in `a: b;; c: d`).
+fn declaration_separator(text: &str) -> IResult<&str, ()> {
+    map(
+        many1(tuple((tag(";"), skip_optional_whitespace))),
+        |_| (),
     )(text)
-    .map(|(rest, v)| (rest, v.into_iter().flatten().collect()))
+}
+
+pub(crate) fn parse_rules(text: &str) -> IResult<&str, Vec<Declaration>> {
+    let (rest, _) = opt(declaration_separator)(text)?;
+    separated_list0(declaration_separator, parse_declaration)(rest)
+        .map(|(rest, v)| (rest, v.into_iter().flatten().collect()))
 }
 
 fn parse_class(text: &str) -> IResult<&str, SelectorComponent> {
@@ -997,7 +1003,7 @@ fn parse_ruleset(text: &str) -> IResult<&str, RuleSet> {
         skip_optional_whitespace,
         parse_rules,
         skip_optional_whitespace,
-        opt(tag(";")),
+        opt(declaration_separator),
         skip_optional_whitespace,
         tag("}"),
         skip_optional_whitespace,
